@@ -613,6 +613,11 @@ class SendWorld:
     def on_send(self, sock, parts, flags):
         assert sock.type == simzmq.PUB
         env = json.loads(parts[1].decode())
+        if getattr(self, 'fail_pub_in', None) is not None:      # fault injection: the n-th PUB send from now on fails (a socket error)
+            self.fail_pub_in -= 1
+            if self.fail_pub_in < 0:
+                self.fail_pub_in = None
+                raise simzmq.ZMQError('scripted failure of a PUB send')
         self.pubbuf.append((self.pubs.index(sock), parts[0].decode(), env))
 
     def flush_pubs(self):
@@ -693,7 +698,9 @@ class SendWorld:
         plan = getattr(self, 'plan', None)
         if plan:
             # a directed prefix (see run_sender_case): who asks / leaves next and how far behind it is
-            kind, k, back = plan.pop(0)
+            ent = plan.pop(0)
+            kind, k, back = ent[:3]
+            self._plan_dt = ent[3] if len(ent) > 3 else None      # virtual ms that pass before this message is read
             c = self.consumers[k]
             mid = -3 if kind == 'close' else max(base - 1 - back, -1)
         elif r < (0.12 if getattr(self.snd, 'balance', False) else 0.04):
@@ -704,7 +711,7 @@ class SendWorld:
             kind = 'req'
             mid = base - 1 + rng.choice([0, 0, 0, 0, -1, -2, 1, 2] if self.adversarial else [0, 0, 0, 0, 0, -1, 1])
             mid = max(mid, -1)
-        new = (not c['heard']) if rng.random() < 0.9 else rng.random() < 0.5
+        new = (not c['heard']) if (rng.random() < 0.9 or getattr(self, '_plan_dt', None) is not None) else rng.random() < 0.5
         # as the real consumer writes them: frame requests carry 'eph' / 'new', out-of-band and CLOSE messages carry neither
         q = dict(cid=c['cid'], uid=c['uid'], mid=mid, eph=c['eph'] if kind == 'req' else 0, new=new if kind == 'req' else False,
                  pay=77 if kind == 'oob' else None, out=c['out'])
@@ -726,8 +733,11 @@ class SendWorld:
             if not want:
                 plan.pop(0)
         if want and self.consumers:
+            self._plan_dt = None
             q = self.gen_request()
-            if rng.random() < 0.15:
+            if self._plan_dt is not None:
+                self.now += self._plan_dt * 1_000_000
+            elif rng.random() < 0.15:
                 self.now += rng.choice([1, 50, 3000, 5200, 9000]) * 1_000_000   # silence / clock jumps around CONN_TIMEOUT
             else:
                 self.now += rng.choice([0, 0, 1, 10, 99]) * 1_000_000
@@ -773,6 +783,13 @@ def run_sender_case(rng, budget=70, adversarial=False):
             w.plan += [('req', lv, 0), ('none', 0, 0), ('req', lv, 0), ('none', 0, 0)]
         for k in range(nout):
             w.consumers[k].update(cid=k + 1, out=k, eph=0)
+    if not balance and ncons >= 2 and rng.random() < 0.2:
+        # directed prefix: consumer 0 keeps re-sending its request every 2-3 s while the publisher waits for consumer 1; after 7 s
+        # consumer 1 asks: consumer 0 was last heard moments ago, not 7 s ago - it stays in the wait set
+        for k in (0, 1):
+            w.consumers[k].update(cid=k + 1, eph=0)
+        w.plan = [('req', 0, 0, 5), ('none', 0, 0), ('req', 0, 0, 10), ('req', 1, 0, 10), ('none', 0, 0),
+                  ('req', 0, 0, 50), ('req', 0, 0, 2500), ('req', 0, 0, 2500), ('req', 0, 0, 2000), ('req', 1, 0, 100), ('none', 0, 0)]
     required = [c['cid'] for c in w.consumers if rng.random() < 0.3]
     if rng.random() < 0.1:
         required.append(9)    # a required output that never shows up
@@ -923,6 +940,14 @@ def send_oracle(run, case, props):
         for i, rec in enumerate(case['calls']):
             end = case['calls'][i + 1]['item'] if i + 1 < len(case['calls']) else len(case['items'])
             pubs = [p for p in case['publishes'] if rec['item'] <= p['item'] < end]
+            # ... and what goes out during a call made with an explicit state goes out under the id of that state
+            # (Sender_Faithful.sender_publishes_what_it_was_given) - never relabelled to whatever id the consumers expect next
+            if rec['state'] is not None:
+                for pb in pubs:
+                    if pb['mid'] != rec['state'][0]:
+                        run.violation('sender:published-under-another-id call=%d published=%d' % (rec['state'][0], pb['mid']),
+                                      'the send() call for id %d (item %d) published its frame under id %d' % (rec['state'][0], rec['item'], pb['mid']), summary)
+                        break
             if pubs and 'ret' in rec and rec['ret'] is None:
                 run.violation('sender:published-but-reported-timeout id=%s' % pubs[0]['mid'],
                               'the send() call starting at item %d published id %s (item %d) and returned None as if nothing had been sent'
@@ -1150,6 +1175,14 @@ CORPUS_RECV = [
                  ['poll', [], 100000000], ['call', 0, 100, 100000000],
                  ['deliver', 0, _m('/b/', 10, 0, ['a', 'b'], 2, 1)], ['poll', [0], 100000000], ['poll', [], 100000000],
                  ['poll', [], 200000000]]),
+    # W5: a synchronized source closes and its restarted publisher starts over at id 0 while the other source's set for id 5 is held:
+    #     the old id does not complete anything (and the consumer, which counts for itself, never goes back)
+    dict(name='W5', cfg=dict(balance=False, low_latency=False, srcs=[dict(eph=0, mode=None), dict(eph=0, mode=None)]),
+         script=[['call', None, 100, 0], ['deliver', 1, _m('/b/', 20, 5, ['b'], 2)], ['deliver', 1, _m('//', 20, 5, ['b'], 0)],
+                 ['poll', [1], 0], ['poll', [], 0], ['poll', [], 100000000],
+                 ['call', None, 100, 100000000], ['deliver', 0, _m('//', 10, -3, [], 0)], ['deliver', 0, _m('/a/', 11, 0, ['a'], 1)],
+                 ['deliver', 0, _m('//', 11, 0, ['a'], 0)],
+                 ['poll', [0], 100000000], ['poll', [0], 100000000], ['poll', [0], 100000000], ['poll', [], 100000000], ['poll', [], 200000000]]),
     # W4: an ephemeral source keeps a partial set across the publisher's CLOSE; the new incarnation's id 0 completes it
     dict(name='W4', cfg=dict(balance=False, low_latency=False, srcs=[dict(eph=1, mode=[['a', 'a'], ['b', 'b']])]),
          script=[['call', None, None, 0], ['deliver', 0, _m('/a/', 10, 7, ['a', 'b'], 1)], ['poll', [0], 0],
@@ -1501,3 +1534,44 @@ def enc_mq(mq):
     return [None if s is None else [s.msg_id, 0 if s.balanced is False else 1 if s.balanced is True else int(s.balanced)],
             None if mq.recv_state is None else mq.recv_state.msg_id]
 
+
+def publish_fault_cases(run, n):
+    """one publish per request, also when a publish fails half way: two synchronized consumers K and L have asked; the frame has
+    two topics and the PUB send of a later part raises; the caller survives (as Filter.run does with loop_exc) and sends again
+    after only L has asked again: the publisher waits for K - what K asked for was spent on the publish that failed.
+    Oracle only (the Gallina machine has no failing sends)."""
+    import random as _r
+    for i in range(n):
+        rng = _r.Random(run.seed * 1000 + i)
+        w = SendWorld(rng, 1, 10 ** 6, False)
+        w.consumers = [dict(cid=1, uid=0, out=0, eph=0, heard=True), dict(cid=2, uid=1, out=0, eph=0, heard=True)]
+        fail_at = rng.randint(1, 3)
+        with simzmq.Patched(w):
+            s = ZMQSender(['tcp://*:7000'], 'SRV', lambda m: None, False, [])
+            w.snd = s
+            w.plan = [('req', 0, 0, 5), ('req', 1, 0, 5), ('none', 0, 0)]
+            w.begin('(SCall None false None None false 0)', ['call', None, False, [['a', 1], ['b', 2], ['c', 3]], 100, False, 0])
+            w.fail_pub_in = fail_at
+            raised = None
+            try:
+                s.send({'a': [1], 'b': [2], 'c': [3]}, None, 100)
+            except Exception as e:      # noqa
+                raised = type(e).__name__
+            w.fail_pub_in = None
+            w.pubbuf = []
+            published_later = 0
+            for rnd in range(rng.randint(2, 6)):
+                w.plan = [('req', 1, 0, 20), ('none', 0, 0), ('none', 0, 0), ('none', 0, 0)]
+                w.begin('(SCall None false None None false 0)', ['call', None, False, [['a', 9]], 100, False, w.now])
+                try:
+                    r = s.send({'a': [9]}, None, 100)
+                except ScriptEnd:
+                    break
+                w.pubbuf = []
+                published_later += 1 if r is not None else 0
+        run.count('publish-fault:cases')
+        run.seen(('pf', fail_at, i), nontrivial=raised is not None)
+        if raised is not None and published_later:
+            run.violation('sender:request-survives-failed-publish later-publishes=%d' % published_later,
+                          'a publish failed after %d part(s) (%s); consumer c1 never asked again, consumer c2 asked %d more times, and %d more frames were published'
+                          % (fail_at, raised, published_later, published_later), dict(fail_at=fail_at, seed=i))
